@@ -236,9 +236,24 @@ def definition_cases(draw, tier):
     return {"A": A, "pat": pat}
 
 
+def _coo_with_duplicates(P):
+    """COO matrix equal to P whose stored triplets repeat positions: each entry a is stored as a/2 + a/2 (exact)."""
+    r, c = np.nonzero(P)
+    v = P[r, c] / 2.0
+    return sp.coo_matrix((np.concatenate([v, v]), (np.concatenate([r, r]), np.concatenate([c, c]))), shape=P.shape)
+
+
 def planes(A, kind):
     if kind == "sparse":
         return tuple(sp.csr_matrix(A[..., c]) for c in range(4))
+    if kind == "sparse_csc":
+        return tuple(sp.csc_matrix(A[..., c]) for c in range(4))
+    if kind == "sparse_coo_dup":
+        return tuple(_coo_with_duplicates(np.ascontiguousarray(A[..., c])) for c in range(4))
+    if kind == "sparse_dia":
+        return tuple(sp.dia_matrix(A[..., c]) for c in range(4))
+    if kind == "sparse_lil":
+        return tuple(sp.lil_matrix(A[..., c]) for c in range(4))
     if kind == "1d":
         return tuple(np.ascontiguousarray(A[..., c]).ravel() for c in range(4))
     return tuple(np.ascontiguousarray(A[..., c]) for c in range(4))
@@ -258,6 +273,10 @@ def fro_entry_points(A):
         "normQsparse(dense planes)": lambda: u.normQsparse(*planes(A, "dense")),
         "normQsparse(sparse planes)": lambda: u.normQsparse(*planes(A, "sparse")),
         "normQsparse(1-D planes)": lambda: u.normQsparse(*planes(A, "1d")),
+        "normQsparse(sparse CSC planes)": lambda: u.normQsparse(*planes(A, "sparse_csc")),
+        "normQsparse(sparse COO planes with repeated triplets)": lambda: u.normQsparse(*planes(A, "sparse_coo_dup")),
+        "normQsparse(sparse DIA planes)": lambda: u.normQsparse(*planes(A, "sparse_dia")),
+        "normQsparse(sparse LIL planes)": lambda: u.normQsparse(*planes(A, "sparse_lil")),
         "tensor_frobenius_norm(order 2)": lambda: t.tensor_frobenius_norm(Q(A)),
         "tensor_frobenius_norm(order 3)": lambda: t.tensor_frobenius_norm(Q(A).reshape(m, 1, n)),
         "tensor_frobenius_norm(order 1)": lambda: t.tensor_frobenius_norm(Q(A).reshape(m * n)),
